@@ -194,3 +194,56 @@ def strip_docstring(body: List[ast.stmt]) -> List[ast.stmt]:
     if body and isinstance(body[0], ast.Expr) and isinstance(body[0].value, ast.Constant) and isinstance(body[0].value.value, str):
         return body[1:]
     return body
+
+
+# ---------------------------------------------------------------- rename-insensitive matching
+class Canon:
+    """Canonical text of expressions of one function: single-assignment locals are inlined and the function's own
+    parameters are replaced by positional placeholders ($0, $1, ... ; keyword-only ones by $k:<position>), so that renaming
+    a local or a parameter, or introducing a temporary, does not change the canonical text."""
+
+    def __init__(self, fn: ast.AST):
+        self.fn = fn
+        self.inl = Inliner(fn)
+        a = fn.args
+        self.pmap = {}
+        for i, p in enumerate(a.posonlyargs + a.args):
+            self.pmap[p.arg] = f"${i}"
+        for i, p in enumerate(a.kwonlyargs):
+            self.pmap[p.arg] = f"$k{i}"
+        if a.vararg:
+            self.pmap[a.vararg.arg] = "$args"
+        if a.kwarg:
+            self.pmap[a.kwarg.arg] = "$kwargs"
+
+    def text(self, e: ast.AST) -> str:
+        r = self.inl.resolve(e)
+        pm = self.pmap
+
+        class T(ast.NodeTransformer):
+            def visit_Name(self, n):
+                if n.id in pm:
+                    return ast.Name(id=pm[n.id], ctx=n.ctx)
+                return n
+        return U(T().visit(r))
+
+    def param(self, name_or_index) -> str:
+        if isinstance(name_or_index, int):
+            return f"${name_or_index}"
+        return self.pmap.get(name_or_index, name_or_index)
+
+    def returns(self) -> List[str]:
+        return [self.text(s.value) for s in statements(self.fn) if isinstance(s, ast.Return) and s.value is not None]
+
+    def assigned(self, target_text: str) -> List[str]:
+        """canonical texts of every value assigned to a target whose own canonical text is `target_text` (e.g. 'self.x')."""
+        out = []
+        for s in statements(self.fn):
+            if isinstance(s, (ast.Assign, ast.AnnAssign)) and getattr(s, "value", None) is not None:
+                for t in store_targets(s):
+                    if self.text(t) == target_text:
+                        out.append(self.text(s.value))
+        return out
+
+    def calls(self, func_text: str) -> List[ast.Call]:
+        return [c for c in walk_no_nested(self.fn) if isinstance(c, ast.Call) and U(c.func) == func_text]
